@@ -395,7 +395,7 @@ fn read_grant(kind_bound: Option<String>, ceiling: &str) -> Candidate {
     }
 }
 
-// @check id=C19 tier=thorough cap=1500 mem=24 role=authorize_precedence
+// @check id=C19 tier=thorough cap=600 mem=24 role=authorize_precedence
 // @fns governance::decision::EffectiveAuthority::authorize, governance::decision::candidate_matches, governance::decision::EffectiveAuthority::statement_matches
 // @bound principal active or not, space suspended or not, owner or not, an unconditional deny statement present or not, one read grant bounded to a one-byte kind (symbolic) present or not; resource kind a symbolic one-byte label
 // @stubs time::now -> "55"; alloc::fmt::format -> String::new()
@@ -423,7 +423,7 @@ fn c19_authorize_precedence_inactive_deny_allow_default_deny() {
     std::mem::forget((a, ea, res, auth));
 }
 
-// @check id=C19 tier=thorough cap=1500 mem=24 role=authorize_unlabelled_uses_space_default
+// @check id=C19 tier=thorough cap=600 mem=24 role=authorize_unlabelled_uses_space_default
 // @fns governance::decision::EffectiveAuthority::authorize, governance::decision::EffectiveAuthority::default_classification, governance::decision::reaches_classification
 // @bound space default classification and the grant's ceiling each a symbolic choice among public / secret (equal length); the resource unlabelled vs labelled with the space default (two runs)
 // @stubs time::now -> "55"; alloc::fmt::format -> String::new()
